@@ -9,16 +9,6 @@ Definition live_ann (s : store) (h : nat) : bool :=
   match get_ann s h with Some _ => true | None => false end.
 Definition flt (s : store) (l : list nat) : list nat := filter (live_ann s) l.
 
-Fixpoint dedup_sorted (l : list nat) : list nat :=
-  match l with
-  | [] => []
-  | x :: l' => match l' with
-               | [] => [x]
-               | y :: _ => if Nat.eqb x y then dedup_sorted l' else x :: dedup_sorted l'
-               end
-  end.
-Definition sort_dedup (l : list nat) : list nat := dedup_sorted (sort l).
-
 Definition m_ann_anns (s : store) (a : nat) := flt s (rget (aam s) a).
 Definition m_res_meta (s : store) (r : nat) := flt s (rget (ramm s) r).
 Definition m_res_text (s : store) (r : nat) := flt s (sort_dedup (concat (nth r (trm s) []))).
